@@ -136,8 +136,138 @@ def _other_like(t, rng):
     return Triangle(cells)
 
 
+def _period_source(t, rng, loose=False):
+    """one cell per period carrying a period-level field; for the loose variant the source lacks the
+    detail keys of `t` (so several slices of `t` map to one coarsened metadata)"""
+    import bermuda as _b
+    import dataclasses as _dc
+    seen, cells = set(), []
+    common = None
+    for m in t.metadata:
+        common = set(m.details) if common is None else common & set(m.details)
+    for c in t.cells:
+        md = _dc.replace(c.metadata, details={k: v for k, v in c.metadata.details.items() if k in common}) \
+            if loose else c.metadata
+        key = (md, c.period)
+        if key in seen:
+            continue
+        seen.add(key)
+        cells.append(c.replace(values={"ep_src": 7}, metadata=md))
+    return Triangle(cells)
+
+
+def _with_duplicate(t, rng):
+    """the triangle plus a second cell at an occupied coordinate (legal: the constructor only warns)"""
+    c = rng.choice(t.cells)
+    return Triangle(list(t.cells) + [c.replace(values={k: v for k, v in c.values.items()})])
+
+
 def _first_meta_keys(t):
     return sorted({k for c in t.cells for k in c.metadata.details})
+
+
+# ---- (v) chains over ALL modelled operations (`Op2`, Model/AllOps.lean; driver request "chain2") ----
+
+NEW_OPS = ["toIncremental", "toCumulative", "aggregate", "summarize", "merge", "coalesce", "addStatics",
+           "periodMerge", "rightTri", "rightDiag", "fill", "backfill", "clipFull", "splitNth", "sliceNth"]
+JOIN_TYPES = ["full", "inner", "left", "right", "left_anti", "right_anti"]
+
+
+def _operand(t, rng, one_per_period=False):
+    """a second triangle of the same class: a sample of t's cells with other values (same or other field
+    names); with one_per_period at most one cell per (metadata, period)"""
+    mode = rng.choice(["same", "same", "renamed"])
+    cells, seen = [], set()
+    for c in t.cells:
+        if rng.random() >= 0.7:
+            continue
+        key = (c.metadata, c.period)
+        if one_per_period and key in seen and rng.random() < 0.9:
+            continue
+        seen.add(key)
+        if mode == "same":
+            vals = {k: (v + 1 if isinstance(v, (int, float)) else v) for k, v in c.values.items()}
+        else:
+            vals = {"reported_claims" if k == "paid_loss" else k: v for k, v in c.values.items()}
+        cells.append(c.replace(values=vals))
+    return Triangle(cells)
+
+
+def make_op2(rng, t):
+    """(wire op, function applying it to the implementation) for the current NON-EMPTY triangle t; operand
+    wire formats as in the drivers of C04/C08/C09/C10/C11/C15 (operand triangles inline)"""
+    k = rng.choice(NEW_OPS)
+    if k == "toIncremental":
+        return {"op": k}, lambda x: x.to_incremental()
+    if k == "toCumulative":
+        return {"op": k}, lambda x: x.to_cumulative()
+    if k == "aggregate":
+        which = rng.choice(["p", "p", "e", "pe"])
+        pres = (rng.choice([3, 6, 12]), rng.choice(["month", "months"])) if "p" in which else None
+        eres = (rng.choice([3, 6, 12]), "month") if "e" in which else None
+        if rng.random() < 0.15:
+            pres = (rng.choice([1, 2]), rng.choice(["quarter", "year"]))
+        prem = rng.random() < 0.8
+        return ({"op": k, "pres": list(pres) if pres else None, "eres": list(eres) if eres else None, "prem": prem},
+                lambda x: x.aggregate(period_resolution=pres, eval_resolution=eres, summarize_premium=prem))
+    if k == "summarize":
+        prem = rng.random() < 0.8
+        return {"op": k, "prem": prem}, lambda x: x.summarize(summarize_premium=prem)
+    if k == "merge":
+        o, ty = _operand(t, rng), rng.choice(JOIN_TYPES)
+        on = None if rng.random() < 0.8 else ["risk_basis", "country", "currency"]
+        return ({"op": k, "ty": ty, "on": on, "b": w_cells(o.cells)},
+                lambda x: x.merge(o, join_type=ty, on=on))
+    if k == "coalesce":
+        o = _operand(t, rng)
+        return {"op": k, "ts": [w_cells(o.cells)]}, lambda x: x.coalesce([o])
+    if k == "addStatics":
+        o = _operand(t, rng)
+        statics = rng.choice([["earned_premium"], ["earned_premium", "paid_loss"], ["reported_claims"]])
+        return {"op": k, "b": w_cells(o.cells), "statics": statics}, lambda x: x.add_statics(o, statics)
+    if k == "periodMerge":
+        o = _operand(t, rng, one_per_period=True)
+        suffix = rng.choice([None, None, "_r", ""])
+        return {"op": k, "b": w_cells(o.cells), "suffix": suffix}, lambda x: x.period_merge(o, suffix=suffix)
+    if k == "rightTri":
+        lags = None if rng.random() < 0.6 else sorted({int(c.dev_lag()) for c in t.cells} | {rng.choice([12, 24, 36])})
+        unit = rng.choice(["month", "month", "months"])
+        return ({"op": k, "lags": None if lags is None else [common.w_rat(x) for x in lags], "unit": unit},
+                lambda x: x.make_right_triangle(dev_lags=lags, dev_lag_unit=unit))
+    if k == "rightDiag":
+        hi = max(c.evaluation_date for c in t.cells)
+        dates = [gen.add_months_int(hi, j * rng.choice([3, 12]), end=True) for j in range(1, rng.randrange(2, 4))]
+        if rng.random() < 0.3:
+            dates.append(hi)
+        hist = rng.random() < 0.3
+        return ({"op": k, "dates": [w_date(d) for d in dates], "hist": hist},
+                lambda x: x.make_right_diagonal(dates, include_historic=hist))
+    if k == "fill":
+        res = rng.choice([None, None, 1, 3, 12])
+        none = rng.random() < 0.3
+        return ({"op": k, "res": res, "none": none},
+                lambda x: __import__("bermuda").utils.fill_forward_gaps(x, eval_resolution=res, fill_with_none=none))
+    if k == "backfill":
+        res = rng.choice([None, None, 3, 12])
+        statics = rng.choice([["earned_premium"], []])
+        min_lag = rng.choice([0, 0, 3, -2])
+        return ({"op": k, "res": res, "statics": statics, "minLag": min_lag},
+                lambda x: __import__("bermuda").utils.backfill(x, static_fields=statics, eval_resolution=res,
+                                                               min_dev_lag=min_lag))
+    if k == "clipFull":
+        lo, hi = rng.choice([None, 0, 3, 6]), rng.choice([None, 12, 24, 5])
+        o = {"op": k}
+        if lo is not None:
+            o["minDev"] = common.w_rat(lo)
+        if hi is not None:
+            o["maxDev"] = common.w_rat(hi)
+        return o, lambda x: x.clip(min_dev=lo, max_dev=hi)
+    if k == "splitNth":
+        keys = [kk for kk in _first_meta_keys(t) if rng.random() < 0.7]
+        i = rng.choice([0, 0, 1, 3])
+        return {"op": k, "keys": keys, "i": i}, lambda x: list(x.split(keys).values())[i]
+    i = rng.choice([0, 0, 1, 2])
+    return {"op": "sliceNth", "i": i}, lambda x: list(x.slices.values())[i]
 
 
 PUBLIC_OPS = [
@@ -166,6 +296,11 @@ PUBLIC_OPS = [
     ("fill_forward_gaps", lambda t, r: __import__("bermuda").utils.fill_forward_gaps(t)),
     ("backfill", lambda t, r: __import__("bermuda").utils.backfill(t)),
     ("json_roundtrip", lambda t, r: Triangle.from_dict(t.to_dict())),
+    ("period_merge", lambda t, r: t.period_merge(_period_source(t, r))),
+    ("loose_period_merge", lambda t, r: __import__("bermuda").utils.merge.loose_period_merge(t, _period_source(t, r, loose=True))),
+    ("to_incremental_dups", lambda t, r: _with_duplicate(t, r).to_incremental()),
+    ("to_cumulative_dups", lambda t, r: _with_duplicate(t, r).to_cumulative()),
+    ("summarize_dups", lambda t, r: _with_duplicate(t, r).summarize()),
 ]
 
 
@@ -318,6 +453,13 @@ def correspondence(ctx):
         cells = gen.rand_cells(rng, max_cells=18, layout=rng.choice(["regular", "regular", "ragged"]),
                                vkind=rng.choice(["int", "float", "farr"]), single_attr=rng.random() < 0.5,
                                fields=["paid_loss", "reported_loss", "earned_premium"])
+        if rng.random() < 0.2:
+            metas = gen.nested_detail_metas(rng, rng.randrange(2, 4))
+            rows = gen.layout_regular(rng, n_periods=rng.randrange(2, 4), n_lags=2, shape="square")
+            kind = rng.choice(["C", "U", "I"])
+            cells = [c for m in metas for c in gen.cells_from_layout(rng, rows, m, kind=kind,
+                     fields=["paid_loss", "reported_loss", "earned_premium"])]
+            rng.shuffle(cells)
         st, t = call(Triangle, cells)
         if st != "ok":
             continue
@@ -334,6 +476,44 @@ def correspondence(ctx):
             reqs.append({"op": "spec", "impl": w_cells(t.cells)})
             spec_cases.append((list(names), w_cells(cells)))
         ctx.case(digest=json.dumps([canon(w_cells(cells)), names], sort_keys=True), nontrivial=bool(names))
+
+    # (v) chains over ALL modelled operations (Op2): model result = implementation result, Spec on the latter
+    n_spec_reqs = len(reqs)
+    chain2_cases = []
+    n_chain2 = 900 if ctx.thorough else 110
+    for i in range(n_chain2):
+        cells = gen.rand_cells(rng, max_cells=16, layout=rng.choice(["regular", "regular", "ragged"]),
+                               vkind=rng.choice(["int", "int", "float"]), single_attr=rng.random() < 0.5,
+                               fields=["paid_loss", "reported_loss", "earned_premium"])
+        st, t = call(Triangle, cells)
+        if st != "ok":
+            continue
+        wire_ops, err = [], None
+        for _ in range(rng.randrange(1, 5)):
+            if len(t) == 0 or rng.random() < 0.25:
+                op = rand_ops(rng, t.cells, 1)[0]
+                st, t2 = call(apply_op, t, op)
+                if st == "err" and op["op"] == "filterMask" and "mask" not in op:
+                    break
+                w = op_wire(op)
+            else:
+                w, fn = make_op2(rng, t)
+                st, t2 = call(fn, t)
+            wire_ops.append(w)
+            ctx.count(f"chain2/op={w['op']}" + ("/err" if st == "err" else ""))
+            if st == "err":
+                err = t2
+                break
+            if not isinstance(t2, Triangle):
+                err = "NotATriangle"
+                break
+            t = t2
+        d = {"err": err} if err else {"ok": w_cells(t.cells)}
+        reqs.append({"op": "chain2", "cells": w_cells(cells), "ops": wire_ops, "impl": d.get("ok")})
+        chain2_cases.append((d, wire_ops))
+        ctx.case(digest=json.dumps([canon(w_cells(cells)), wire_ops], sort_keys=True, default=str),
+                 nontrivial=len(wire_ops) > 1,
+                 sample={"op": "chain2", "ops": [o["op"] for o in wire_ops], "n_cells": len(cells)} if i < 2 else None)
 
     outs_all = drv.run(reqs)
     outs = outs_all[:n_model_reqs]
@@ -373,15 +553,33 @@ def correspondence(ctx):
         if not same:
             ctx.disagree("operation chain result", {"cells": req["cells"], "ops": wire_ops}, model, d)
 
+    for (d, wire_ops), req, out in zip(chain2_cases, reqs[n_spec_reqs:], outs_all[n_spec_reqs:]):
+        model, spec = out["model"], out["spec"]
+        if spec is not None and not all(spec.values()):
+            ctx.fail(f"result of an operation chain (all modelled operations) is not canonical {spec}",
+                     {"cells": req["cells"], "ops": wire_ops}, {"impl": d})
+        if model.get("err") == "Other":
+            ctx.count("chain2/outside-model")           # a documented bound of one of the models
+            continue
+        same = (("err" in model) == ("err" in d)) and (
+            True if "err" in d else canon(model["ok"]) == canon(d["ok"]))
+        if not same:
+            ctx.disagree("operation chain result (all modelled operations)",
+                         {"cells": req["cells"], "ops": wire_ops}, model, d)
+
 
 if __name__ == "__main__":
     common.run_check(
-        "C01", module="Bermuda.Properties.C01", driver_targets=["drv_c01"],
+        "C01", module=["Bermuda.Properties.C01", "Bermuda.Properties.C01Ext"], driver_targets=["drv_c01"],
         correspondence=correspondence,
         rule="random multisets of cells (1-4 slices differing in one attribute incl. only loss_details / None vs '' / "
              "limit None vs number; regular, ragged, day-level; three cell classes; a duplicate-coordinate stream; a "
              "mixed-class stream) x permutations x {list,tuple,generator}; random Metadata sets (order laws); random "
-             "operation chains of length 1-6. distinct = distinct canonical input dump; non-trivial = more than one cell",
+             "operation chains of length 1-6 over the ten basic operations; chains of length 1-4 over ALL modelled "
+             "operations (Op2: + to_incremental/to_cumulative, aggregate, summarize, merge, coalesce, add_statics, "
+             "period_merge, make_right_triangle/diagonal, fill_forward_gaps, backfill, clip with lag bounds, split, "
+             "slices) on month-aligned int/float triangles, operands derived from the current triangle. "
+             "distinct = distinct canonical input dump; non-trivial = more than one cell",
         assumptions=["detail values under one key are mutually comparable (Python raises TypeError otherwise)",
                      "NaN-free values and limits", "Timsort is a stable sort (result of a stable sort by a total preorder is unique)"],
         trusted=["CPython tuple comparison / sorted() semantics as modelled (Model/Order.lean)"],
